@@ -318,11 +318,27 @@ def _indices(kind):
             'bool rows': [True, False], '2-d bool mask': np.array([[True, False], [False, True]]), 'row,part slice': (1, slice(0, 1)),
             'partslice,col': (slice(0, 1), 1), 'rowlist,col': ([0, 1], 1), 'open slice': slice(None),
             'slice,repeated collist': (slice(None), [1, 1, 0]), 'repeated row list': [1, 1, 0], 'repeated rowlist,collist': ([0, 0, 1], [1, 1, 0]),
-            'row,repeated collist': (1, [0, 0, 1])}
+            'row,repeated collist': (1, [0, 0, 1]),
+            # boolean row masks whose first entry is False (added after seeded change C09_10)
+            'bool rows False-first': [False, True], 'bool rows ndarray False-first': np.array([False, True]), 'bool rows,slice False-first': ([False, True], slice(None))}
+
+
+INDICES_3x2 = {   # three rows: masks and row lists that skip a row before selecting one (added after seeded change C09_10)
+    'bool rows F,T,T': [False, True, True], 'bool rows T,F,T': [True, False, True], 'bool rows ndarray F,F,T': np.array([False, False, True]),
+    'bool rows F,T,T;slice': ([False, True, True], slice(None)), 'row list 2,0': [2, 0], 'rows 1:3': slice(1, 3)}
+
+
+def _index_of(cfg):
+    if tuple(cfg['shape']) == (3, 2): return INDICES_3x2[cfg['index']]
+    return _indices(cfg['kind'])[cfg['index']]
 
 
 def getset_configs(tier):
     out = []
+    for iname in INDICES_3x2:
+        out.append({'name': f'SparseArray[3, 2][{iname}] get', 'kind': 'SparseArray', 'shape': [3, 2], 'index': iname, 'op': 'get'})
+        for vkind in ('scalar', 'array'):
+            out.append({'name': f'SparseArray[3, 2][{iname}] = {vkind}', 'kind': 'SparseArray', 'shape': [3, 2], 'index': iname, 'op': 'set', 'value': vkind})
     for kind, shape in (('SparseVector', (3,)), ('SparseArray', (2, 2))):
         for iname in _indices(kind):
             out.append({'name': f'{kind}{list(shape)}[{iname}] get', 'kind': kind, 'shape': list(shape), 'index': iname, 'op': 'get'})
@@ -340,7 +356,7 @@ def getset_configs(tier):
 def getset(w, cfg):
     a, A = mk_operand(w, 'a', cfg['kind'], tuple(cfg['shape']))
     A0 = A.copy()
-    index = _indices(cfg['kind'])[cfg['index']]
+    index = _index_of(cfg)
     np_index = index
     if cfg['op'] == 'get':
         np_exc = sp_exc = None
